@@ -3,7 +3,7 @@
    parse actions are allowed to raise: it also demands that an empty And has mayIndexError set (as the constructor does)
    and excludes the one construct the model does not implement (non-exact PrecededBy).  Each ('&') is covered. *)
 From Coq Require Import List ZArith NArith Bool.
-From PP Require Import Model.Str Model.Results Model.Prog Model.Core Model.Entry Gen.GenLoc Proofs.LocProofs Proofs.Total.
+From PP Require Import Model.Str Model.Results Model.Prog Model.Core Model.Entry Gen.GenLoc Proofs.LocProofs Proofs.Total Proofs.LocBound.
 Import ListNotations.
 
 Definition not_index (k : xkind) : bool := negb (is_index k).
@@ -64,3 +64,60 @@ Example C06_instance :
   wf not_index g = true /\ wf is_pbe g = false /\
   parse (step []) 3 (mkargs g [97%N] 0 true true) = Some (Err (mkx XActIndex 0 (MUser 1) None)).
 Proof. vm_compute. repeat split. Qed.
+
+(* ---- the location bound: 0 <= loc <= len(parsed string) + 1 ---------------------------------------------------------
+   `lb` (Proofs/LocBound.v) is the boolean class of grammars for which the bound is proved.  It is restricted (hence
+   `_partial`); what it excludes, anywhere in the grammar (children, ignore expressions, stop_on / fail_on operands,
+   SkipTo's ignorer, Forward bodies):
+     * GoToColumn — it genuinely violates the bound (F-06, C06_loc_bound_gotocolumn_refuted below);
+     * non-exact PrecededBy — not implemented by the model;
+     * a caseless Keyword whose dumped `caselessmatch` is shorter than `match` (never the case for `match.upper()`).
+   Everything else of the model is inside: all other tokens, And (with '-'), MatchFirst, Or, Each, every enhancement
+   (Located, exact PrecededBy, FollowedBy, NotAny, Opt, ...), ZeroOrMore / OneOrMore with stop_on, SkipTo with ignore and
+   fail_on, Forward recursion, ignore expressions, and parse actions (the model's action language raises at the location
+   the action is called with; an action that constructs an exception with a location of its own choice is not in it).
+   The bound is proved for exceptions of EVERY kind, not only ParseBaseExceptions.  The "+ 1" cannot be dropped:
+   StringEnd / LineEnd return len + 1 at loc = len. *)
+Theorem C06_loc_bound_partial : forall (G : env),
+  forallb lb G = true ->
+  forall fuel a o, lb (a_e a) = true -> (a_loc a <= length (a_s a) + 1)%nat ->
+  parse (step G) fuel a = Some o ->
+  match o with
+  | Ok l _ => (l <= length (a_s a) + 1)%nat
+  | Err x => (0 <= xloc x <= Z.of_nat (length (a_s a)) + 1)%Z
+  | Div => True
+  end.
+Proof. exact parse_loc_bound. Qed.
+
+(* the entry point, parse_all or not: `loc` of whatever parse_string raises indexes the string that was parsed
+   (tab-expanded unless parse_with_tabs) *)
+Theorem C06_parse_string_loc_bound_partial : forall (G : env) dw root keeptabs input parse_all fuel x,
+  forallb lb G = true -> lb root = true ->
+  drun (parse (step G) fuel) (parse_string dw root keeptabs input parse_all) = Some (PErr x) ->
+  (0 <= xloc x <= Z.of_nat (length (if keeptabs then input else expandtabs input)) + 1)%Z.
+Proof. exact parse_string_loc_bound. Qed.
+
+(* non-vacuity: a recursive grammar (Forward, Or, MatchFirst, And, ZeroOrMore, Opt, Word, Literal, Keyword; dump of
+     expr = Forward(); atom = Word("ab") | "(" + expr + ")"; expr <<= atom + ZeroOrMore(Opt(",") + atom);
+     root = expr ^ Keyword("end", ident_chars="den"))
+   is in the class, and parse_string(parse_all=True) on "(a,b" and on "(a b) x" raises ParseException at 4 = len and at
+   6 = len - 1 ("Expected ')'" / "Expected end of text"), as the implementation does *)
+Example C06_loc_bound_instance :
+  forallb lb ex_G = true /\ lb ex_root = true /\
+  drun (parse (step ex_G) 30) (parse_string DEFAULT_WHITE ex_root false [40;97;44;98]%N true)
+    = Some (PErr (mkx XParse 4 (MNode 9 0) (Some 9%nat))) /\
+  drun (parse (step ex_G) 30) (parse_string DEFAULT_WHITE ex_root false [40;97;32;98;41;32;120]%N true)
+    = Some (PErr (mkx XParse 6 (MNode ID_SE_END 0) (Some ID_SE_END))).
+Proof. vm_compute. repeat split. Qed.
+
+(* F-06 on the model: (GoToColumn(3) + Word("ab")).parse_string("") raises ParseException("Expected W:(ab)") with
+   loc = 2 > len + 1 = 1: GoToColumn.parseImpl returns loc + col - thiscol without looking at the end of the string.
+   The grammar fails `lb` only because of its GoToColumn. *)
+Theorem C06_loc_bound_gotocolumn_refuted : exists (G : env) root input fuel x,
+  lb root = false /\
+  drun (parse (step G) fuel) (parse_string DEFAULT_WHITE root false input false) = Some (PErr x) /\
+  is_pbe (xk x) = true /\
+  (Z.of_nat (length (expandtabs input)) + 1 < xloc x)%Z.
+Proof.
+  exists [], gotocol_root, [], 5%nat, (mkx XParse 2 (MNode 3 0) (Some 3%nat)). vm_compute. repeat split.
+Qed.
